@@ -387,6 +387,7 @@ type weightRow struct {
 	Outline      int    `json:"RelayV2BlockOutline_request_bytes"`
 	SendTxns     int    `json:"SendTransactions_response_bytes"`
 	RelayTxns    int    `json:"RelayV2TransactionSet_request_bytes"`
+	keySuffix    string // distinguishes the cause in finding keys
 }
 
 type encCase struct {
@@ -482,7 +483,7 @@ func measureBlock(b *harness.B, blk types.Block, row *weightRow, consistent bool
 			continue
 		}
 		wit["read_error"] = err.Error()
-		b.Violate("C19/exceeds-maxLen/gateway."+c.rpc+"/"+c.key,
+		b.Violate("C19/exceeds-maxLen/gateway."+c.rpc+"/"+c.key+row.keySuffix,
 			fmt.Sprintf("block/transaction set of consensus weight %d (limit %d; shape %s) encodes to %d bytes for %s, the receiver reads at most %d: %v", row.Weight, cs.MaxBlockWeight(), row.Shape, lw.n, c.rpc, limit, err), wit)
 	}
 }
@@ -560,6 +561,27 @@ func runWeightVsBytes(b *harness.B) {
 			b.Count("max_weight_blocks_validated_by_ValidateBlock", 1)
 			measureBlock(b, blk, &row, true, cs)
 			rows = append(rows, row)
+		}
+
+		// (1b) a light block: one spend of an output created in the block, whose parent carries Merkle proof hashes.
+		// Nothing validates, weighs or compresses the proof of an in-block parent, yet it travels with the block.
+		if len(ins) >= 1 {
+			t1 := types.V2Transaction{SiacoinInputs: []types.V2SiacoinInput{ins[0]}, SiacoinOutputs: []types.SiacoinOutput{{Value: types.NewCurrency64(1), Address: acsAddr}}}
+			eph := t1.EphemeralSiacoinOutput(0)
+			eph.StateElement.MerkleProof = make([]types.Hash256, 170000)
+			t2 := types.V2Transaction{SiacoinInputs: []types.V2SiacoinInput{{Parent: eph, SatisfiedPolicy: types.SatisfiedPolicy{Policy: acs}}}, MinerFee: types.NewCurrency64(1)}
+			blk3 := sealV2(cs, []types.V2Transaction{t1, t2}, g.addr())
+			row3 := weightRow{Shape: "light block: in-block parent carrying 170000 proof hashes", Txns: 2, Inputs: 2, Weight: cs.V2TransactionWeight(t1) + cs.V2TransactionWeight(t2), keySuffix: "/unvalidated-proof-on-an-in-block-parent"}
+			b.Eval(1)
+			if err := consensus.ValidateBlock(cs, blk3, consensus.V1BlockSupplement{}); err != nil {
+				b.Count("light_block_with_attached_proof_rejected_by_ValidateBlock", 1)
+				b.SetAdd("light_block_rejections", err.Error())
+			} else {
+				row3.Validated = true
+				b.Count("max_weight_blocks_validated_by_ValidateBlock", 1)
+				measureBlock(b, blk3, &row3, false, cs)
+				rows = append(rows, row3)
+			}
 		}
 
 		// (2) per-transaction overhead: many minimal transactions (1 byte of
